@@ -43,7 +43,7 @@ var lgTable = []lgEntry{
 	{Rule: "L1", Func: "tensor.ToMat64", Site: "convToFloat64s($t)", Goal: "!$t.IsMaterializable()", Props: []string{"C04", "C14"}, Why: "raw export of a view/lazy transpose emits storage order, not logical order"},
 	{Rule: "L4", Func: "tensor.ToMat64", Site: "copy(%data, $t.Float64s())", Goal: "!$t.DataOrder().IsColMajor()", Props: []string{"C16"}, Why: "mat.Dense is row-major: only a row-major tensor may hand over its backing array as it is (the iterator branch handles every order)"},
 	{Rule: "L4", Func: "tensor.ToMat64", Site: "convToFloat64s($t)", Goal: "!$t.DataOrder().IsColMajor()", Props: []string{"C16"}, Why: "mat.Dense is row-major: only a row-major tensor may hand over its backing array as it is"},
-	{Rule: "L1", Func: "tensor.copyDenseIter", Site: "copyDense($dst, $src)", Goal: "((!$dst.RequiresIterator() && !$src.RequiresIterator()) && $dst.DataOrder().HasSameOrder($src.DataOrder()))", Props: []string{"C04", "C16"}, Why: "the raw memcpy inside the iterator copy is only the logical copy when neither side needs an iterator and both have the same data order"},
+	{Rule: "L1", Func: "tensor.copyDenseIter", Site: "copyDense($dst, $src)", Goal: "((!$dst.RequiresIterator() && !$src.RequiresIterator()) && $dst.DataOrder().HasSameOrder($src.DataOrder()))", Props: []string{"C04", "C16", "C02"}, Why: "the raw memcpy inside the iterator copy is only the logical copy when neither side needs an iterator and both have the same data order"},
 	{Rule: "L1", Func: "tensor.handleFuncOpts", Site: "return ", NotAfter: "= errors.", Goal: "(!$ret2 || !(($expShape.TotalSize() != $ret0.len()) && !$expShape.IsScalar()))", Props: []string{"C04", "C07"}, Why: "a reuse/incr destination is accepted only if its storage length equals the result size (a strided view, whose storage is longer than its element count, is refused)"},
 	{Rule: "L1", Func: "tensor.handleFuncOptsF32", Site: "return ", NotAfter: "= errors.", Goal: "(!$ret2 || !(($expShape.TotalSize() != $ret0.len()) && !$expShape.IsScalar()))", Props: []string{"C04", "C07", "C20"}, Why: "a reuse/incr destination is accepted only if its storage length equals the result size"},
 	{Rule: "L1", Func: "tensor.handleFuncOptsF64", Site: "return ", NotAfter: "= errors.", Goal: "(!$ret2 || !(($expShape.TotalSize() != $ret0.len()) && !$expShape.IsScalar()))", Props: []string{"C04", "C07", "C20"}, Why: "a reuse/incr destination is accepted only if its storage length equals the result size"},
@@ -93,6 +93,8 @@ var lgTable = []lgEntry{
 	{Rule: "L1", Func: "tensor.(StdEng).LogSoftMaxB", Site: "$r.softMax", Goal: "!($ret1 != nil)", MustStep: "$ret1 = softMaxLayout($output, $grad, %reuse)", Props: []string{"C16"}, Why: "the softmax kernels walk the backing arrays of operands and result as contiguous row-major storage: the layout gate (rule SM) sees every one of them and its refusal is honoured (finding 63)"},
 	{Rule: "L1", Func: "tensor.(*Dense).Eq", Site: "$r.array.Eq(", Goal: "(!$r.RequiresIterator() && !%ot.RequiresIterator())", Props: []string{"C16", "C04"}, Why: "the array comparison pairs the two backing arrays position by position (finding 62)"},
 	{Rule: "L3", Func: "tensor.(*Dense).Eq", Site: "$r.array.Eq(", Goal: "$r.DataOrder().HasSameOrder(%ot.DataOrder())", Props: []string{"C16"}, Why: "the array comparison pairs the two backing arrays position by position: a row-major and a column-major tensor with the same contents differ in storage (finding 62)"},
+	{Rule: "L1", Func: "tensor.(*Dense).CopyTo", Site: "copyDense($other, $r)", Goal: "(($r.viewOf == 0) && ($other.viewOf == 0))", Props: []string{"C19", "C04"}, Why: "the storage-level copy fills the destination's whole backing array: neither side may be a view (a view's array is a window of its parent's)"},
+	{Rule: "L2", Func: "tensor.(*Dense).Inner", Site: ".Inner($r, $other)", Goal: "($other.DataSize() == $r.len())", Props: []string{"C09"}, Why: "the BLAS dot product walks both backing arrays with one length: the storage lengths must agree, not the logical sizes"},
 	{Rule: "L1", Func: "tensor.(StdEng).RepeatReuse", Site: "$r.denseRepeat(", Goal: "(%ok && $reuse.Shape().Eq(%newShape))", Props: []string{"C10", "C13"}, Why: "a reuse destination is accepted only when its shape is the computed result shape: the repeat fills it by the result's geometry, and the returned tensor must have the shape the shape-only calculator predicts"},
 	// ---- mask inspection (C15) -----------------------------------------------------------------------
 	{Rule: "L1", Func: "tensor.doMaskAll", Site: "range %ts.mask", Goal: "(%ts.IsMasked() && (%ts.Size() == len(%ts.mask)))", Props: []string{"C15"}, Why: "the whole-mask fold is the fold over the tensor's elements only when the mask covers exactly those elements (a view's mask window is longer)"},
@@ -139,6 +141,13 @@ func normAtomsGeneral(b *ir.BExpr) *ir.BExpr {
 			return ir.BNot(ir.BAtom(strings.TrimSuffix(a, ".IsContiguous()") + ".IsNotContiguous()"))
 		case strings.HasSuffix(a, ".IsView()"):
 			return ir.BNot(ir.BAtom("(" + strings.TrimSuffix(a, ".IsView()") + ".viewOf == 0)"))
+		}
+		// HasSameOrder is symmetric: one spelling
+		if i := strings.Index(a, ".HasSameOrder("); i > 0 && strings.HasSuffix(a, ")") {
+			l, r := a[:i], a[i+len(".HasSameOrder("):len(a)-1]
+			if balancedParens(l) && balancedParens(r) && r < l {
+				return ir.BAtom(r + ".HasSameOrder(" + l + ")")
+			}
 		}
 		if strings.HasPrefix(a, "(0 == ") && strings.HasSuffix(a, ".viewOf)") {
 			return ir.BAtom("(" + strings.TrimSuffix(strings.TrimPrefix(a, "(0 == "), ")") + " == 0)")
@@ -226,6 +235,7 @@ func LGuards(rc *RC, prop string) {
 				key += " ?" + d
 			}
 			var bad []string
+			var undec []string
 			sites := 0
 			for _, p := range paths {
 				hit := -1
@@ -257,6 +267,8 @@ func LGuards(rc *RC, prop string) {
 				}
 				sites++
 				f := pathG(p)
+				nBadBefore := len(bad)
+				helper := rc.PathNewHelper(p)
 				if e.MustStep != "" {
 					found := false
 					for _, st := range p.Steps[:min(hit, len(p.Steps))] {
@@ -302,9 +314,19 @@ func LGuards(rc *RC, prop string) {
 						bad = append(bad, fmt.Sprintf("reached with [%s] without a test of %s", strings.Join(p.Guards, " && "), d))
 					}
 				}
+				if len(bad) > nBadBefore && helper != "" {
+					// the path runs through a helper the reviewed tree did not have: what it
+					// establishes is outside what this table can read
+					bad = bad[:nBadBefore]
+					undec = append(undec, fmt.Sprintf("the path [%s] calls %s(), a helper introduced since the reviewed tree; what it establishes is not followed", strings.Join(p.Guards, " && "), helper))
+				}
 			}
 			if sites == 0 {
 				rc.S.Undec(e.Rule, key, pos, "the access this entry is keyed to was not found in "+fk+" (site "+e.Site+")")
+				continue
+			}
+			if len(bad) == 0 && len(undec) > 0 {
+				rc.S.Undec(e.Rule, key, pos, undec[0])
 				continue
 			}
 			if len(bad) > 0 {
@@ -730,7 +752,7 @@ func SM(rc *RC) {
 					bad = append(bad, "the loop is left early without a refusal: later arguments are never examined")
 				}
 			}
-		case n.Kind == "return":
+		case n.Kind == "ret":
 		case n.Kind == "if":
 			bad = append(bad, "a branch outside the loop over the arguments decides the result: "+n.Head)
 		}
@@ -743,4 +765,20 @@ func SM(rc *RC) {
 	} else {
 		rc.S.Ok("SM", key, pos, "every argument is refused when it requires an iterator or is column-major")
 	}
+}
+
+func balancedParens(s string) bool {
+	d := 0
+	for i := 0; i < len(s); i++ {
+		switch s[i] {
+		case '(':
+			d++
+		case ')':
+			d--
+			if d < 0 {
+				return false
+			}
+		}
+	}
+	return d == 0
 }
